@@ -489,6 +489,45 @@ func runV1Model(r *core.Run) {
 		checkMigration(r, w, want, fs, m, mout)
 	}
 
+	// --- two key stores for the same clients migrated into one v2 key store: the second one's keys
+	// become current and are listed first (newest first), the first one's keys stay
+	for i := 0; i < r.N(4, 40); i++ {
+		id := core.Pick(rd, v1IDs)
+		mk := func() ([]pair, map[string]string) {
+			s := newV1Store(string(v1Src))
+			must(s.ks.GenerateClientIDSymmetricKey([]byte(id)))
+			must(s.ks.GenerateHmacKey([]byte(id)))
+			must(s.ks.GenerateDataEncryptionKeys([]byte(id)))
+			must(s.ks.GeneratePoisonKeyPair())
+			defer s.close()
+			return readAll(s.dir), s.snapshot([]string{id})
+		}
+		fs1, want1 := mk()
+		fs2, want2 := mk()
+		r.Begin(fmt.Sprintf("v1:m:migrate2:%d", i), true, "stream:v1-migrate-twice")
+		var sb strings.Builder
+		fmt.Fprintf(&sb, "C18.v1.migrate2 %s %d", core.Hex(v1Src), len(fs1))
+		for _, f := range fs1 {
+			sb.WriteString(" " + f.String())
+		}
+		fmt.Fprintf(&sb, " %d", len(fs2))
+		for _, f := range fs2 {
+			sb.WriteString(" " + f.String())
+		}
+		r.Do(sb.String())
+		_, T := runV1Migrate2(v1Src, fs1, fs2)
+		sks := keystoreV2.NewServerKeyStore(T)
+		cur, err := sks.GetClientIDSymmetricKey([]byte(id))
+		r.Check(err == nil && core.Hex(cur) == want2[id+"/sym/0"], "migrate-v1-current", "after migrating two key stores the current storage symmetric key is not the one imported last")
+		all, err := sks.GetClientIDSymmetricKeys([]byte(id))
+		r.Check(err == nil && len(all) == 2 && core.Hex(all[0]) == want2[id+"/sym/0"] && core.Hex(all[1]) == want1[id+"/sym/0"], "migrate-v1-order", "after migrating two key stores the storage symmetric keys are not listed newest first")
+		privs, err := sks.GetServerDecryptionPrivateKeys([]byte(id))
+		r.Check(err == nil && len(privs) == 2 && core.Hex(privs[0].Value) == want2[id+"/priv/0"] && core.Hex(privs[1].Value) == want1[id+"/priv/0"], "migrate-v1-order", "after migrating two key stores the storage private keys are not listed newest first")
+		if kp, err := sks.GetPoisonKeyPair(); r.Check(err == nil, "migrate-v1-current", "no poison key pair after two migrations") {
+			r.Check(core.Hex(kp.Private.Value) == want2["poison/priv"], "migrate-v1-current", "after migrating two key stores the current poison key pair is not the one imported last")
+		}
+	}
+
 	// --- migration of partial stores (public keys only, private keys only, strays)
 	for i := 0; i < r.N(6, 60); i++ {
 		w := genWorld(rd, false)
